@@ -259,9 +259,57 @@ def ob_count(which, timeout=30):
     return result('count.' + which, r, [f], x, goal, kind='state')
 
 
+def ob_adopt_batch(timeout=10):
+    """frame condition of BatchSimulation.load_results: what a run() adopts is read from the output file DURING that call - the method assigns no attribute of
+    the batch object (no file content is carried from one run() call to the next on the same object) and hands the file name to every simulation's own load_results"""
+    m = Module.load(BA); c = m.classes["BatchSimulation"]
+    f = c.methods['load_results']
+    problems, unrec, stored = [], [], set()
+    for n in ast.walk(f.node):
+        tg = []
+        if isinstance(n, ast.Assign):
+            tg = n.targets
+        elif isinstance(n, (ast.AugAssign, ast.AnnAssign)):
+            tg = [n.target]
+        for t0 in tg:
+            for t in ast.walk(t0):
+                if isinstance(t, ast.Attribute) and isinstance(t.value, ast.Name) and t.value.id == 'self':
+                    stored.add(t.attr)
+                    problems.append('load_results stores self.%s (line %d): state derived from the file survives into the next run() call on the same object' % (t.attr, t.lineno))
+    body = [s_ for s_ in f.node.body if not (isinstance(s_, ast.Expr) and isinstance(s_.value, ast.Constant))]
+    src = [ast.unparse(s_) for s_ in body]
+    if src != ['for simulation in self._simulations:\n    simulation.load_results(self._output_file)']:
+        unrec.append('load_results is not literally one loop handing self._output_file to each simulation: %s' % src)
+    r_ = c.methods['_run']
+    first = [s_ for s_ in r_.node.body if not (isinstance(s_, ast.Expr) and isinstance(s_.value, ast.Constant))][0]
+    if ast.unparse(first) != 'self.load_results()':
+        unrec.append('_run does not start with self.load_results()')
+    if unrec and not problems:
+        raise Unsupported('source shape not recognised: %s' % unrec)
+    witness = None
+    if problems:
+        # a stored attribute is a defect only if what it holds can go stale: decided on the real code by the run()-again histories (a store that
+        # is never the source of adopted data, or a cache that is validated, passes them and the clause is then undecided, not refuted)
+        from bounded import crash as CR_
+        for plan, ints in (('ABB', (5, 12)), ('AAA', (3, 12)), ('ABBB', (3, 8, 13))):
+            d = tempfile.mkdtemp(prefix='c12_')
+            try:
+                why = CR_.scenario_history(d, False, plan, ints)
+            finally:
+                shutil.rmtree(d, ignore_errors=True)
+            if why:
+                witness = dict(compress=False, history=plan, interrupts=list(ints)); problems.append(why); break
+        if witness is None:
+            raise Unsupported('load_results stores %s on the batch object; the run()-again histories still pass, frame clause undecided' % sorted(stored))
+    return dict(verdict='refuted' if problems else 'discharged', model=dict(problems=problems, input=witness) if problems else None, backend='pyvc-structural', seconds=0, kind='state',
+                detail='; '.join(problems) or 'every _run starts by re-reading the output file; load_results assigns nothing on the batch object',
+                functions=[dict(function=g.ref, sha256_16=g.sha) for g in (f, r_)], transparent=[])
+
+
 def obligations(tier):
     obs = [Ob('C12.atomic[save_json]', ob_atomic, {}, timeout=30, kind='state', backend='pyvc-effects'),
-           Ob('C12.adopt[load_results]', ob_adopt, {}, timeout=60, kind='state')]
+           Ob('C12.adopt[load_results]', ob_adopt, {}, timeout=60, kind='state'),
+           Ob('C12.adopt[BatchSimulation.load_results]', ob_adopt_batch, {}, timeout=30, kind='state', backend='pyvc-structural')]
     for w in ('init', 'step', 'final', 'lastsave'):
         obs.append(Ob('C12.count[_run].' + w, ob_count, dict(which=w), timeout=60, kind='state'))
     return obs
@@ -289,6 +337,12 @@ def replay(r):
 def replay_file(data):
     inp = data.get('input') or {}
     d = tempfile.mkdtemp(prefix='c12_')
+    if inp.get('history'):
+        try:
+            why = CR.scenario_history(d, inp.get('compress', False), inp['history'], inp.get('interrupts', []))
+            return dict(confirmed=bool(why), detail=why or 'holds', input=inp)
+        finally:
+            shutil.rmtree(d, ignore_errors=True)
     try:
         why, crashed = CR.scenario(d, inp.get('compress', False), inp.get('crash_at_effect', 1), extra_rate=inp.get('extra_rate'), interrupt_at=inp.get('interrupt_at'))
         return dict(confirmed=bool(why), detail=why or 'holds', input=inp)
@@ -299,6 +353,11 @@ def replay_file(data):
 def _job(a):
     compress, k, extra, at = a
     d = tempfile.mkdtemp(prefix='c12_')
+    if k == 'history':                       # (compress, 'history', plan, interrupts): several run() calls in one process
+        try:
+            return a, CR.scenario_history(d, compress, extra, at), False
+        finally:
+            shutil.rmtree(d, ignore_errors=True)
     try:
         why, crashed = CR.scenario(d, compress, k, extra_rate=extra, interrupt_at=at)
         return a, why, crashed
@@ -327,9 +386,18 @@ def bounded(tier, seed):
         for near in ((0.1000001, 0.2 * (1 + 1e-9)) if tier == 'quick' else (0.1000001, 0.2 * (1 + 1e-9), 0.1 + 1e-12, 0.09999999)):
             jobs.append((compress, 0, near, None))
             jobs.append((compress, 3, near, None))
+        # run() called again on the SAME object after a KeyboardInterrupt (same letter = same object), with and without an earlier session's file
+        for plan, ints in ((('AAA', (3, 12)), ('ABB', (5, 12)), ('ABBB', (3, 8, 13))) if tier == 'quick' else
+                           (('AAA', (3, 12)), ('AAA', (2, 5)), ('ABB', (5, 12)), ('ABB', (4, 9)), ('ABBB', (3, 8, 13)), ('AABB', (3, 8, 13)), ('ABAB', (3, 8, 13)))):
+            jobs.append((compress, 'history', plan, ints))
     with mp.get_context('fork').Pool(12) as pool:
         for (compress, k, extra, at), why, crashed in pool.imap_unordered(_job, jobs):
             ev += 1
+            if k == 'history':
+                nt.add((compress, extra, at))
+                if why:
+                    viol.append(dict(obligation='C12.bounded.history', input=dict(compress=compress, history=extra, interrupts=list(at)), detail=why))
+                continue
             if crashed or at is not None:
                 nt.add((compress, k, at))
             if len(samples) < 4 and crashed:
@@ -338,11 +406,12 @@ def bounded(tier, seed):
                 viol.append(dict(obligation='C12.bounded.interrupt' if at is not None else 'C12.bounded.crash',
                                  input=dict(compress=compress, crash_at_effect=k, extra_rate=extra, interrupt_at=at), detail=why))
     out, seen = [], set()
-    for v in sorted(viol, key=lambda v: (v['input'].get('compress', False), v['input'].get('crash_at_effect', 0))):
+    for v in sorted(viol, key=lambda v: (v['input'].get('compress', False), v['input'].get('crash_at_effect', 0), len(v['input'].get('history', '')))):
         if v['obligation'] not in seen:
             seen.add(v['obligation']); out.append(v)
     return dict(bound='2 simulations, 4 trials then restart to 6 (every 4th case with a third simulation appended; also appended simulations whose error rate differs from a stored one by 1e-6..1e-12 relative); os._exit at EVERY effect point of every save_json call of the run '
-                      '(after open, mid-write, after close, before/after replace), plain and gzip; KeyboardInterrupt at trial boundaries',
+                      '(after open, mid-write, after close, before/after replace), plain and gzip; KeyboardInterrupt at trial boundaries; histories of several run() calls in one process '
+                      '(run() again on the same object after KeyboardInterrupt, fresh object on an existing file then re-run), 8 trials',
                 evaluations=ev, distinct_nontrivial=len(nt), exhaustive=True,
                 rule='real BatchSimulation in a subprocess; trials tagged (pid, serial) so that prefix preservation is exact; non-trivial iff the first run actually died',
                 samples=samples, violations=out)
